@@ -101,7 +101,35 @@ func (p *objectWalker) walkAllRefs() error {
 		}
 		return p.walkObjectTree(ref.Hash())
 	})
-	return err
+	if err != nil {
+		return err
+	}
+	return p.walkIndex()
+}
+
+// walkIndex marks the objects the index refers to. Staged content is not
+// reachable from any reference until it is committed, yet it must survive
+// pruning and repacking, as it does with git.
+func (p *objectWalker) walkIndex() error {
+	idx, err := p.Storer.Index()
+	if err != nil {
+		return err
+	}
+	for _, e := range idx.Entries {
+		if e.Mode == filemode.Submodule || p.isSeen(e.Hash) {
+			continue
+		}
+		// An entry may name an object that was never stored (intent-to-add),
+		// so only objects that exist are recorded.
+		if _, err := p.Storer.EncodedObjectSize(e.Hash); err != nil {
+			if errors.Is(err, plumbing.ErrObjectNotFound) {
+				continue
+			}
+			return err
+		}
+		p.add(e.Hash)
+	}
+	return nil
 }
 
 func (p *objectWalker) isSeen(hash plumbing.Hash) bool {
